@@ -414,6 +414,8 @@ def custom_engines(run, found):
         for seq in seqs:
             t = " ".join(seq)
             res, e = lc.with_watchdog(lambda: eng(t), 5.0)
+            if isinstance(e, lc.Timeout):
+                res, e = lc.with_watchdog(lambda: eng(t), 90.0)      # loaded machine: confirm before reporting
             run.count("oracle:custom-engine")
             why = None
             if e is not None:
